@@ -5,7 +5,34 @@
    answers (map_class_fail / map_field_fail / map_method_fail, asked by the harness for everything
    that occurs in the class, class names inside descriptors included).  A question outside the
    table is an error of the case (the check then fails), never silently "unmapped". *)
+From Coq Require Export String.
+From Coq Require Import Ascii.
 From FB Require Export C07.Model Base.Run.
+
+(* Strings of a case are written as Coq string literals (UTF-8) — Coq reads those far faster than
+   lists of numerals — and decoded to code points here. *)
+Fixpoint bytes_of (s : string) : list N :=
+  match s with EmptyString => [] | String a s' => N_of_ascii a :: bytes_of s' end.
+Fixpoint utf8_dec (fuel : nat) (l : list N) : str :=
+  match fuel with
+  | O => []
+  | S k =>
+      match l with
+      | [] => []
+      | b :: r =>
+          if b <? 128 then b :: utf8_dec k r
+          else if b <? 224 then
+            match r with c :: r' => ((b - 192) * 64 + (c - 128)) :: utf8_dec k r' | _ => [] end
+          else if b <? 240 then
+            match r with c :: d :: r' => ((b - 224) * 4096 + (c - 128) * 64 + (d - 128)) :: utf8_dec k r' | _ => [] end
+          else
+            match r with
+            | c :: d :: e :: r' => ((b - 240) * 262144 + (c - 128) * 4096 + (d - 128) * 64 + (e - 128)) :: utf8_dec k r'
+            | _ => []
+            end
+      end
+  end.
+Definition U (s : string) : str := let b := bytes_of s in utf8_dec (List.length b) b.
 
 Definition ctable := list (str * option str).
 Definition mkey := (str * str * str)%type.
